@@ -80,6 +80,22 @@ def run(R):
             for st in (vs if (not quick or n < 20) else [R.rng.choice(vs)]):
                 ph = bytes(R.rng.randrange(1, 256) for _ in range(n))
                 ops.append(CS.crypt_op("rn", 0, ph, st)); meta.append((m, "valid", n, len(st)))
+    # salt lengths: the hash underneath changes its code path with the length of what it absorbs (PBKDF2-HMAC-SHA256 has a one-block fast path
+    # whose entry depends on the salt length modulo 64, the MD-style methods pad differently around 55/56/64): every salt length of the yescrypt
+    # family up to two blocks, and the boundary lengths of the other variable-salt methods (seeded/C02c, C03c)
+    def salted(m, body):
+        return {"sha1crypt": b"$sha1$24$" + body + b"$", "sunmd5": b"$md5,rounds=5$" + body + b"$", "scrypt": b"$7$66..../...." + body,
+                "yescrypt": b"$y$j75$" + S.enc64(body), "gost_yescrypt": b"$gy$j75$" + S.enc64(body)}[m]
+    SL = {"sha1crypt": [1, 8, 40, 47, 48, 55, 56, 63, 64], "sunmd5": [1, 8, 30, 39, 40, 41, 47, 48, 55, 56, 64, 100],
+          "scrypt": list(range(1, 135)) if not quick else list(range(28, 70)) + [1, 8, 100, 115, 116, 117, 127, 128, 129],
+          "yescrypt": list(range(0, 65)) if not quick else [0, 1, 16, 30, 31, 32, 33, 47, 48, 50, 51, 52, 53, 54, 55, 56, 57, 60, 63, 64],
+          "gost_yescrypt": list(range(0, 65)) if not quick else [1, 16, 31, 32, 51, 52, 53, 55, 56, 64]}
+    for m, ls in SL.items():
+        for L in ls:
+            raw = m in ("yescrypt", "gost_yescrypt")
+            body = bytes(R.rng.randrange(256) for _ in range(L)) if raw else S.rs(R.rng, S.A64, L)
+            ph = bytes(R.rng.randrange(1, 256) for _ in range(R.rng.choice([1, 8, 20, 64, 65])))
+            ops.append(CS.crypt_op("rn", 0, ph, salted(m, body))); meta.append((m, "salt-length", len(ph), L))
     ops, meta, il, ml = CS.run_budgeted(R, ops, meta, group_starts=list(range(len(ops))))
     diffs = compare(R, ops, il, ml, CS.proj_crypt, "full hashes")
     hamlet = bytes(R.genvals["B"]["hamlet_quotation"]) if hasattr(R, "genvals") else None
